@@ -13,6 +13,9 @@ CHECK = Check(
         # property oracle only, no 1e-9 comparison (see harness models_rr.go sacParamsWet)
         Family("KORACLE", compare=False, args=["models=Sacramento", "variant=wet", "prop=C10", "n=150"],
                label="KORACLE-sacramento-wet"),
+        # GR4J with a routing store of a few mm and a strongly negative exchange coefficient (chaotic recurrence)
+        Family("KORACLE", compare=False, args=["models=GR4J", "variant=stiff", "prop=C10", "n=150"],
+               label="KORACLE-gr4j-stiff"),
     ],
     level="proof",
     trusted=[
@@ -24,6 +27,10 @@ CHECK = Check(
         "no invalid pow argument'; floating-point overflow/round-off is covered by execution and the oracle only",
         "transcendental functions enter through 0 <= tanh w <= min(w,1) for w >= 0 (proved from Mathlib's "
         "sinh/cosh), exp > 0, and monotonicity / range lemmas of Real.rpow",
+        "conditioning filter of the correspondence generators (harness models_rr.go): a drawn case is compared at 1e-9 "
+        "only if the implementation itself moves by <= 1e-10 relative under a 1e-13 relative perturbation of its "
+        "inputs; numerically chaotic corners (GR4J: x2 < -x3/2 with x3 of a few mm; Sacramento: supplemental store "
+        "of 5-7 mm in very wet spells) are run oracle-only (family KORACLE)",
         "oracle for the failing-input search (harness oracle_C10.go): finiteness, non-negativity, store bounds, "
         "components, prefix and end-of-run budgets on the implementation's outputs, tolerance 1e-9 x scale",
     ],
